@@ -160,10 +160,26 @@ func cseqOf(h base.Header) string {
 	return ""
 }
 
+// refusal lets a peer ask the application handler to refuse its request: a request carrying
+// "X-Verif-Refuse: <status>" is answered by the handler with that status and no error (the
+// connection and the session stay up), as an application would refuse for reasons of its own.
+func refusal(req *base.Request) *base.Response {
+	if v, ok := req.Header["X-Verif-Refuse"]; ok && len(v) == 1 {
+		var code int
+		if _, err := fmt.Sscan(v[0], &code); err == nil && code >= 300 && code < 600 {
+			return &base.Response{StatusCode: base.StatusCode(code)}
+		}
+	}
+	return nil
+}
+
 type hDescribe struct{ c *Core }
 
 func (h hDescribe) OnDescribe(ctx *gortsplib.ServerHandlerOnDescribeCtx) (*base.Response, *gortsplib.ServerStream, error) {
 	h.c.log(Event{Kind: "describe", Conn: ctx.Conn, Method: base.Describe, Path: ctx.Path, Query: ctx.Query})
+	if res := refusal(ctx.Request); res != nil {
+		return res, nil, nil
+	}
 	if h.c.Describe != nil {
 		return h.c.Describe(ctx)
 	}
@@ -178,6 +194,9 @@ type hAnnounce struct{ c *Core }
 
 func (h hAnnounce) OnAnnounce(ctx *gortsplib.ServerHandlerOnAnnounceCtx) (*base.Response, error) {
 	h.c.log(Event{Kind: "announce", Conn: ctx.Conn, Sess: ctx.Session, Method: base.Announce, Path: ctx.Path, Query: ctx.Query})
+	if res := refusal(ctx.Request); res != nil {
+		return res, nil
+	}
 	if h.c.Announce != nil {
 		return h.c.Announce(ctx)
 	}
@@ -189,6 +208,9 @@ type hSetup struct{ c *Core }
 func (h hSetup) OnSetup(ctx *gortsplib.ServerHandlerOnSetupCtx) (*base.Response, *gortsplib.ServerStream, error) {
 	h.c.log(Event{Kind: "setup", Conn: ctx.Conn, Sess: ctx.Session, Method: base.Setup, Path: ctx.Path, Query: ctx.Query,
 		Info: fmt.Sprintf("%v/%v", ctx.Transport.Protocol, ctx.Transport.Profile)})
+	if res := refusal(ctx.Request); res != nil {
+		return res, nil, nil
+	}
 	if h.c.Setup != nil {
 		return h.c.Setup(ctx)
 	}
@@ -206,6 +228,9 @@ type hPlay struct{ c *Core }
 
 func (h hPlay) OnPlay(ctx *gortsplib.ServerHandlerOnPlayCtx) (*base.Response, error) {
 	h.c.log(Event{Kind: "play", Conn: ctx.Conn, Sess: ctx.Session, Method: base.Play, Path: ctx.Path, Query: ctx.Query})
+	if res := refusal(ctx.Request); res != nil {
+		return res, nil
+	}
 	if h.c.Play != nil {
 		return h.c.Play(ctx)
 	}
@@ -216,6 +241,9 @@ type hRecord struct{ c *Core }
 
 func (h hRecord) OnRecord(ctx *gortsplib.ServerHandlerOnRecordCtx) (*base.Response, error) {
 	h.c.log(Event{Kind: "record", Conn: ctx.Conn, Sess: ctx.Session, Method: base.Record, Path: ctx.Path, Query: ctx.Query})
+	if res := refusal(ctx.Request); res != nil {
+		return res, nil
+	}
 	if h.c.OnRecordPacket != nil || h.c.LogPackets {
 		ss := ctx.Session
 		ss.OnPacketRTPAny(func(m *description.Media, f format.Format, pkt *rtp.Packet) {
@@ -237,6 +265,9 @@ type hPause struct{ c *Core }
 
 func (h hPause) OnPause(ctx *gortsplib.ServerHandlerOnPauseCtx) (*base.Response, error) {
 	h.c.log(Event{Kind: "pause", Conn: ctx.Conn, Sess: ctx.Session, Method: base.Pause, Path: ctx.Path, Query: ctx.Query})
+	if res := refusal(ctx.Request); res != nil {
+		return res, nil
+	}
 	if h.c.Pause != nil {
 		return h.c.Pause(ctx)
 	}
